@@ -330,9 +330,11 @@ func main() {
 	plain := func(c Case) { cases = append(cases, c) }
 	if run.Thorough() {
 		ringCases(6, plain)
+		unionMemberCycleCases(plain)
 		scaleCases([]int{8, 16, 32, 64, 128}, plain)
 	} else {
 		ringCases(4, plain)
+		unionMemberCycleCases(plain)
 		scaleCases([]int{8, 16, 32, 64}, plain)
 	}
 	// identical texts reached by different routes are executed once per (signature, text)
